@@ -156,7 +156,7 @@ PROPS['C02'] = dict(
 
 PROPS['C14'] = dict(
     level='proof',
-    claim='pilot state progression function (functional spec), Pilot._update, PilotManager._update_pilot (unknown pilots ignored, never backward, a final state never left for a non-final one, callbacks non-decreasing and in order, gaps filled) verified for every notification; agent side: _check_lifetime / stop / _ctrl_cancel_pilots keep the termination cause (run time exceeded => timeout), and finalize maps cause to state exactly (timeout->DONE, cancel/sys.exit->CANCELED, else FAILED; finite check on the AST)',
+    claim='pilot state progression function (functional spec), Pilot._update, PilotManager._update_pilot (unknown pilots ignored, never backward, a final state never left for a non-final one, callbacks non-decreasing and in order, gaps filled) verified for every notification; agent side: _check_lifetime / stop / _ctrl_cancel_pilots keep the termination cause (run time exceeded => timeout), and finalize maps cause to state exactly (timeout->DONE, cancel/sys.exit->CANCELED, else FAILED; finite check on the AST); client side launcher (PMGRLaunchingComponent.work): every pilot of a (resource, schema) bucket and no other is reported once, FAILED only if the bulk launch of its own bucket raised',
     note='bootstrap_0.sh reading killme.signal is shell code outside this family; the user callback loop inside Pilot._update is replaced by one ghost callback event (listed under dropped statements)',
     assumptions=['A2', 'A4', 'A5', 'A7', 'A9', 'A11'],
     trusted_base=['ru.dict_merge', 'AgentComponent.stop / Session.close (do not touch _final_cause)'],
@@ -164,6 +164,7 @@ PROPS['C14'] = dict(
     clauses={'only forward / gaps filled / unknown pilots ignored': 'P',
              'final never left for non-final': 'P',
              'DONE iff ran until its run time, CANCELED iff canceled, else FAILED (agent side)': 'P',
+             'a pilot is failed by the launcher only if the launch of its own bucket raised': 'P',
              'bootstrap_0.sh': 'N'})
 
 PROPS['C17'] = dict(
@@ -181,7 +182,7 @@ PROPS['C18'] = dict(
     level='other',
     claim='node list construction (_get_node_list: one entry per allocated node, indices = positions, configured cores/GPUs all free), uniform core count (_get_cores_per_node), blocked-core/GPU marking (fragment of _init_from_scratch: exactly the listed indices DOWN on every node), and _filter_nodes (never empty, never longer than requested, a sub-list of the allocated nodes, agent and service nodes set aside and pairwise disjoint) are verified for every node list; lemma C01.init: the resulting list satisfies the scheduler invariant',
     bounded=[dict(name='node-files', cmd=['harness/run_bounded.py', 'node-files'], timeout=600)],
-    note='node-file parsing (_parse_nodefile: file I/O) is exercised by a bounded run over generated node files only; the per-batch-system init_from_scratch (Slurm, LSF, PBSPro ...) and the registry hand-over to other components are not under contract; the ssh probe in _filter_nodes is replaced by an arbitrary order-preserving sub-list (listed under dropped statements)',
+    note='node-file parsing (_parse_nodefile: file I/O) is exercised by a bounded run over generated node files only; of the per-batch-system init_from_scratch functions Slurm is under contract (a configured node size is kept whatever the batch system reports; one node per allocated host, in order), LSF, PBSPro, Torque, Cobalt, Fork ... and the registry hand-over to other components are not; the ssh probe in _filter_nodes is replaced by an arbitrary order-preserving sub-list (listed under dropped statements)',
     assumptions=['A1', 'A2', 'A3', 'A4', 'A8', 'A11'],
     trusted_base=['ru.sh_callout / Process (ssh probe): modelled as an arbitrary sub-list of the node list'],
     explanation='contracts on the RM base class functions that build and reduce the node list',
